@@ -37,8 +37,8 @@ ASSUMPTIONS = ['value counts: exact while fewer distinct values than --max_uniqu
 
 POOL = ['a', 'b', 'c', 'd', '', '{}', 'NA', '0', '1', 'x y', 'é', 'a ', ' a', '12', '2', 'bc', 'A']
 # column names one of which is a prefix of another: ('f1','12') / ('f11','2') and ('f','bc') / ('fb','c') concatenate equally
-COLNAMES = ['f1', 'f11', 'f', 'fb', 'f2', 'g 1', 'é', 'f12']
-MISSING_SETS = [',{}', 'NA', ',{},NA', 'a,b', '0']
+COLNAMES = ['f1', 'f11', 'f', 'fb', 'f2', 'g 1', 'é', 'f12', 'terms AND conditions', 'a AND_REL b']
+MISSING_SETS = [',{}', 'NA', ',{},NA', 'a,b', '0', 'NA,{},NA', ',,{}', 'a,a']   # a symbol may be listed twice
 
 
 @st.composite
@@ -223,11 +223,12 @@ def pipeline_case(draw):
     ms = draw(st.lists(st.sampled_from(divisors), min_size=2, max_size=3, unique=True))
     ncols = draw(st.integers(1, 3))
     cols = {}
+    colset_choice = draw(st.integers(0, 1))
     for j in range(ncols):
         k = draw(st.integers(1, 5))
         vals = draw(st.lists(st.sampled_from(['a', 'b', 'c', 'd', '', '{}', 'e f', 'a ', ' a', '12', '2']), min_size=k, max_size=k,
                              unique=True))
-        cols[['f1', 'f11', 'f2'][j]] = {'vals': vals, 'seed': draw(st.integers(0, 2**32 - 1)), 'rare': draw(st.lists(st.integers(0, rows - 1), max_size=3))}
+        cols[[['f1', 'f11', 'f2'], ['terms AND conditions', 'f11', 'x AND_REL y']][colset_choice][j]] = {'vals': vals, 'seed': draw(st.integers(0, 2**32 - 1)), 'rare': draw(st.lists(st.integers(0, rows - 1), max_size=3))}
     cols['label'] = {'vals': ['0', '1'], 'seed': draw(st.integers(0, 2**32 - 1)), 'rare': []}
     return {'seq': {'n': rows, 'cols': cols}, 'ms': sorted(ms), 'task': draw(st.sampled_from(['ranking', 'identify_rare_values'])),
             'bound': draw(st.sampled_from([0, 0, 1, 2, 4])), 'hist_bound': draw(st.sampled_from([2, 3, 30_000]))}
